@@ -136,7 +136,7 @@ func (comp) Gen(prop string, rng *rand.Rand, tier string) *core.History {
 	if core.Chance(rng, 1, 6) {
 		nkeys = 6 // ... except in one history out of six: the empty value
 	}
-	keys := allKeys[:nkeys]
+	keys := core.WithLongKeys(rng, allKeys[:nkeys], 10)
 	setConfig(h, capacity, maxBytes, keys)
 	sizes := []int64{0, 10, 40, 40, 90, 150}
 	if core.Chance(rng, 1, 12) {
